@@ -9,23 +9,30 @@ Local Open Scope string_scope.
 
 (* every output port and every next-state function (and, vacuously here, every cut wire and memory write) of the
    sv2v translation equals that of processor.sv: for every instruction byte, both reset levels, every register value,
-   every i_d_data and every value of the don't-care constants X k *)
-Theorem C16_equiv : forall e : env, 0 <= var e "i_f_data" < 256 -> (var e "i_rst" = 0 \/ var e "i_rst" = 1) ->
+   every i_d_data and every value of the don't-care constants X k -- AND the clocked blocks that assign the registers have
+   the same sensitivity lists (e.g. both `posedge i_clk or posedge i_rst`: a synchronous-reset rewrite of one file computes
+   the same next-state functions but reacts differently to a reset pulse between clock edges) *)
+Theorem C16_equiv :
+  clocking RtlV.design = clocking RtlSv.design /\
+  forall e : env, 0 <= var e "i_f_data" < 256 -> (var e "i_rst" = 0 \/ var e "i_rst" = 1) ->
   map (evalp e) (outputs RtlV.design) = map (evalp e) (outputs RtlSv.design) /\
   map (evalp e) (next RtlV.design) = map (evalp e) (next RtlSv.design) /\
   map (evalp e) (wires RtlV.design) = map (evalp e) (wires RtlSv.design) /\
   map (evalw e) (mem_writes RtlV.design) = map (evalw e) (mem_writes RtlSv.design).
-Proof. exact v_equiv_sv. Qed.
+Proof. exact (conj v_clocking_sv v_equiv_sv). Qed.
 Print Assumptions C16_equiv.
 
-(* synth/processor.v and verilog/processor.v are the same design: all outputs and next-state functions agree, for every
-   input and state (on the pinned tree the two even elaborate to the same value; the check reports that separately) *)
-Theorem C16_copies_identical : forall e : env, 0 <= var e "i_f_data" < 256 -> (var e "i_rst" = 0 \/ var e "i_rst" = 1) ->
+(* synth/processor.v and verilog/processor.v are the same design: same sensitivity lists, all outputs and next-state
+   functions agree for every input and state (on the pinned tree the two even elaborate to the same value; the check
+   reports that separately) *)
+Theorem C16_copies_identical :
+  clocking RtlVSynth.design = clocking RtlV.design /\
+  forall e : env, 0 <= var e "i_f_data" < 256 -> (var e "i_rst" = 0 \/ var e "i_rst" = 1) ->
   map (evalp e) (outputs RtlVSynth.design) = map (evalp e) (outputs RtlV.design) /\
   map (evalp e) (next RtlVSynth.design) = map (evalp e) (next RtlV.design) /\
   map (evalp e) (wires RtlVSynth.design) = map (evalp e) (wires RtlV.design) /\
   map (evalw e) (mem_writes RtlVSynth.design) = map (evalw e) (mem_writes RtlV.design).
-Proof. exact vsynth_equiv_v. Qed.
+Proof. exact (conj vsynth_clocking_v vsynth_equiv_v). Qed.
 Print Assumptions C16_copies_identical.
 
 (* non-vacuity *)
@@ -43,3 +50,7 @@ Example C16_checker_rejects_a_broken_design :
   proc_equiv_check (broken RtlSv.design) RtlSv.design = false /\
   map fst (proc_equiv_failures (broken RtlSv.design) RtlSv.design) = [209].
 Proof. exact checker_discriminates. Qed.
+Example C16_clocking : clocking RtlSv.design =
+  [("areg_q", ["posedge i_clk"; "posedge i_rst"]); ("breg_q", ["posedge i_clk"; "posedge i_rst"]);
+   ("oreg_q", ["posedge i_clk"; "posedge i_rst"]); ("pc_q", ["posedge i_clk"; "posedge i_rst"])].
+Proof. reflexivity. Qed.
